@@ -23,6 +23,7 @@
  * c18_params.h is generated per program: NV and the parameter table.
  */
 #include <alloca.h>
+#include <sys/resource.h>
 #include <stdio.h>
 #include <stdlib.h>
 #include <string.h>
@@ -43,7 +44,7 @@ struct vparam {
 
 #include "c18_params.h"
 
-#define MAXTOTAL 1024
+#define MAXTOTAL 1024 /* address-escaping victims only */
 #define HEAP_SKIP 32 /* glibc writes list pointers into the first bytes of a freed chunk */
 
 extern int (*const c18_victims[])(void);
@@ -56,7 +57,10 @@ static uint64_t rt_seed;
 
 /* ---- channel (b) */
 #define PAD 65536  /* stack between this TU's frames and the victim's: later calls here cannot reach the dead frame */
-#define SCAN 4096  /* bytes below the pad that are inspected; victim frames are < 1 KiB */
+#ifndef C18_SCAN
+#define C18_SCAN 32768
+#endif
+#define SCAN C18_SCAN /* bytes below the pad that are inspected; victim frames are < 13 KiB (targets up to 12 KiB) */
 #define MINRUN 8   /* consecutive pattern bytes (consistent phase) that count as surviving secret */
 volatile unsigned char c18_magic[16]; /* the only copy of the pattern outside victim buffers; not on the stack */
 volatile unsigned c18_salt, c18_sink;
@@ -142,9 +146,9 @@ static void __attribute__((noinline)) run_noescape(int k) {
 
 /* map the whole stack range used below (and zero it) once, before any victim runs */
 static void __attribute__((noinline)) prefault(void) {
-    volatile unsigned char *p = (volatile unsigned char *)alloca(PAD + 4 * SCAN);
+    volatile unsigned char *p = (volatile unsigned char *)alloca(PAD + 2 * SCAN);
     int i;
-    for (i = 0; i < PAD + 4 * SCAN; i++)
+    for (i = 0; i < PAD + 2 * SCAN; i++)
         p[i] = 0;
 }
 
@@ -188,7 +192,13 @@ static void judge_noescape(int k) {
 
 int main(int argc, char **argv) {
     int k;
+    struct rlimit rl;
     rt_seed = argc > 1 ? strtoull(argv[1], 0, 10) : (uint64_t)argc;
+    /* pad + scan window + the largest victim frame must fit the main thread's stack several times over */
+    if (getrlimit(RLIMIT_STACK, &rl) == 0 && rl.rlim_cur != RLIM_INFINITY && rl.rlim_cur < 4u * (PAD + 2 * SCAN)) {
+        printf("stack limit %lu too small for the stack-scan channel\n", (unsigned long)rl.rlim_cur);
+        return 3;
+    }
     prefault();
     for (k = 0; k < NV; k++) {
         if (c18_params[k].storage == 3) {
